@@ -2,7 +2,7 @@
 C10 — helper lemmas, part 13: the admission conditions of every pooled transaction persist while chain
 height and median time do not move backwards (`fresh` entries), through every operation.
 -/
-import BV.C10.Sound
+import BV.C10.Compose
 namespace BV.C10.Lemmas
 open BV.C10 BV.C10.Spec
 
@@ -184,10 +184,182 @@ theorem foldApply_mem {h : Nat} : ∀ (l : List TxAbs) (u0 : List Utxo) (u : Utx
         rfl
     · exact Or.inr h1
 
+/-! ### the utxo entry of an outpoint the block does not spend -/
+
+def findOp (l : List Utxo) (x : OutPoint) : Option Utxo := l.find? (fun u => u.op = x)
+
+theorem chain_find_eq (c : Chain) (x : OutPoint) : c.find x = findOp c.utxo x := rfl
+
+theorem findOp_filter {ins : List OutPoint} {x : OutPoint} (hx : x ∉ ins) : ∀ (l : List Utxo),
+    findOp (l.filter (fun e => e.op ∉ ins)) x = findOp l x
+  | [] => rfl
+  | e :: l => by
+    unfold findOp at *
+    by_cases he : e.op ∈ ins
+    · have hne : e.op ≠ x := fun h => hx (h ▸ he)
+      simp only [List.filter_cons, he, not_true_eq_false, decide_false, Bool.false_eq_true, if_false,
+        List.find?_cons, hne]
+      exact findOp_filter hx l
+    · simp only [List.filter_cons, he, not_false_eq_true, decide_true, if_true, List.find?_cons]
+      split
+      · rfl
+      · exact findOp_filter hx l
+
+theorem findOp_append (l m : List Utxo) (x : OutPoint) :
+    findOp (l ++ m) x = (findOp l x).or (findOp m x) := by
+  unfold findOp; exact List.find?_append
+
+theorem findOp_outsOf {h : Nat} {cb : Bool} {t : TxAbs} {x : OutPoint} {u : Utxo}
+    (hf : findOp (outsOf h cb t) x = some u) : u.height = h := by
+  unfold findOp at hf
+  have := List.mem_of_find?_eq_some hf
+  unfold outsOf at this
+  simp only [List.mem_map] at this
+  obtain ⟨i, _, rfl⟩ := this
+  rfl
+
+/-- an outpoint no block transaction spends keeps its entry; one that had none gets none or one created at
+the new height -/
+theorem findOp_fold {h : Nat} : ∀ (l : List TxAbs) (u0 : List Utxo) (x : OutPoint), (∀ T ∈ l, x ∉ T.ins) →
+    (∀ u, findOp u0 x = some u → findOp (l.foldl (applyTx h false) u0) x = some u) ∧
+    (findOp u0 x = none → findOp (l.foldl (applyTx h false) u0) x = none ∨
+      ∃ u, findOp (l.foldl (applyTx h false) u0) x = some u ∧ u.height = h)
+  | [], _, _, _ => ⟨fun _ hu => hu, fun hn => Or.inl hn⟩
+  | T :: l, u0, x, hx => by
+    simp only [List.foldl_cons]
+    have hT : x ∉ T.ins := hx T (by simp)
+    have ih := findOp_fold (h := h) l (applyTx h false u0 T) x (fun T' h' => hx T' (by simp [h']))
+    have happ : findOp (applyTx h false u0 T) x = (findOp u0 x).or (findOp (outsOf h false T) x) := by
+      unfold applyTx; rw [findOp_append, findOp_filter hT]
+    constructor
+    · intro u hu
+      apply ih.1
+      rw [happ, hu]; rfl
+    · intro hn
+      rw [hn] at happ
+      simp only [Option.none_or] at happ
+      cases ho : findOp (outsOf h false T) x with
+      | none => rw [ho] at happ; exact ih.2 happ
+      | some u' =>
+        rw [ho] at happ
+        exact Or.inr ⟨u', ih.1 u' happ, findOp_outsOf ho⟩
+
+theorem connect_find {c : Chain} {b : Block} {x : OutPoint} (hx : ∀ T ∈ b.txs, x ∉ T.ins) :
+    (∀ u, c.find x = some u → (c.connect b).find x = some u) ∧
+    (c.find x = none → (c.connect b).find x = none ∨
+      ∃ u, (c.connect b).find x = some u ∧ u.height = c.height + 1) := by
+  have hf := findOp_fold (h := c.height + 1) b.txs c.utxo x hx
+  have hc : (c.connect b).find x =
+      (findOp (b.txs.foldl (applyTx (c.height + 1) false) c.utxo) x).or (findOp (outsOf (c.height + 1) true b.cb) x) := by
+    rw [chain_find_eq]; unfold Chain.connect; simp only; rw [findOp_append]
+  constructor
+  · intro u hu
+    rw [hc, hf.1 u (by rw [← chain_find_eq]; exact hu)]; rfl
+  · intro hn
+    rcases hf.2 (by rw [← chain_find_eq]; exact hn) with h1 | ⟨u, h1, h2⟩
+    · rw [hc, h1]
+      simp only [Option.none_or]
+      cases ho : findOp (outsOf (c.height + 1) true b.cb) x with
+      | none => exact Or.inl rfl
+      | some u' => exact Or.inr ⟨u', rfl, findOp_outsOf ho⟩
+    · exact Or.inr ⟨u, by rw [hc, h1]; rfl, h2⟩
+
+theorem mtpAt_connect (c : Chain) (b : Block) (h : Nat) (hh : h ≤ c.height) : mtpAt (c.connect b) h = mtpAt c h := by
+  have h1 : (c.connect b).height = c.height + 1 := by simp [Chain.connect]
+  obtain ⟨undo, h2⟩ : ∃ undo, (c.connect b).stack = ⟨b, undo, c.mtp⟩ :: c.stack := ⟨_, rfl⟩
+  unfold mtpAt
+  rw [h1, h2]
+  have hlt : ¬ (c.height + 1 ≤ h) := by omega
+  simp only [hlt, if_false]
+  by_cases he : h = c.height
+  · subst he
+    simp
+  · have hl : ¬ (c.height ≤ h) := by omega
+    simp only [hl, if_false]
+    have : c.height + 1 - h - 1 = (c.height - h - 1) + 1 := by omega
+    rw [this, List.drop_succ_cons]
+
+theorem mtpAt_tip (c : Chain) (h : Nat) (hh : c.height ≤ h) : mtpAt c h = c.mtp := by
+  unfold mtpAt; simp [hh]
+
+/-- BIP68 maturity of one input persists over a connected block that does not spend it -/
+theorem inputMature_connect {c : Chain} {b : Block} {x : OutPoint} {q : Nat} (hm : c.mtp ≤ b.mtp)
+    (hx : ∀ T ∈ b.txs, x ∉ T.ins)
+    (h : C13.Lemmas.inputMature (seqInput c x q) (c.height + 1) c.mtp) :
+    C13.Lemmas.inputMature (seqInput (c.connect b) x q) ((c.connect b).height + 1) (c.connect b).mtp := by
+  have hh : (c.connect b).height = c.height + 1 ∧ (c.connect b).mtp = b.mtp := by simp [Chain.connect]
+  obtain ⟨f1, f2⟩ := connect_find (c := c) (b := b) hx
+  unfold C13.Lemmas.inputMature at h ⊢
+  rw [hh.1, hh.2]
+  cases hc : c.find x with
+  | some u =>
+    have hc' := f1 u hc
+    unfold seqInput at h ⊢
+    rw [hc] at h; rw [hc']
+    simp only at h ⊢
+    have hmt : (mtpAt (c.connect b) (u.height - 1) : Int) ≤ mtpAt c (u.height - 1) ∨
+        (c.height ≤ u.height - 1) := by
+      by_cases hle : u.height - 1 ≤ c.height
+      · left; rw [mtpAt_connect c b _ hle]; exact Int.le_refl _
+      · right; omega
+    rcases h with h | ⟨h1, h2⟩ | ⟨h1, h2⟩
+    · exact Or.inl h
+    · right; left
+      refine ⟨h1, ?_⟩
+      rcases hmt with hmt | hmt
+      · omega
+      · -- the entry is (nominally) above the tip: both clocks are the tip's
+        rw [mtpAt_tip c _ hmt] at h2
+        by_cases hle : c.height + 1 ≤ u.height - 1
+        · rw [mtpAt_tip (c.connect b) _ (by rw [hh.1]; exact hle), hh.2]; omega
+        · have : u.height - 1 = c.height := by omega
+          rw [this, mtpAt_connect c b _ (Nat.le_refl _), mtpAt_tip c _ (Nat.le_refl _)]; omega
+    · right; right
+      exact ⟨h1, by omega⟩
+  | none =>
+    unfold seqInput at h
+    rw [hc] at h
+    simp only at h
+    rw [mtpAt_tip c _ (Nat.le_refl _)] at h
+    rcases f2 hc with hn | ⟨u, hu, hhu⟩
+    · unfold seqInput
+      rw [hn]
+      simp only
+      rw [mtpAt_tip (c.connect b) _ (Nat.le_refl _), hh.1, hh.2]
+      rcases h with h | ⟨h1, h2⟩ | ⟨h1, h2⟩
+      · exact Or.inl h
+      · right; left; exact ⟨h1, by omega⟩
+      · right; right; exact ⟨h1, by omega⟩
+    · unfold seqInput
+      rw [hu]
+      simp only
+      rw [hhu]
+      have : c.height + 1 - 1 = c.height := by omega
+      rw [this, mtpAt_connect c b _ (Nat.le_refl _), mtpAt_tip c _ (Nat.le_refl _)]
+      rcases h with h | ⟨h1, h2⟩ | ⟨h1, h2⟩
+      · exact Or.inl h
+      · right; left; exact ⟨h1, by omega⟩
+      · right; right; exact ⟨h1, by omega⟩
+
+theorem seqLocksOk_connect {c : Chain} {b : Block} {t : TxAbs} (hm : c.mtp ≤ b.mtp)
+    (hx : ∀ x ∈ t.ins, ∀ T ∈ b.txs, x ∉ T.ins) (h : seqLocksOk c t = true) :
+    seqLocksOk (c.connect b) t = true := by
+  by_cases hv : 2 ≤ t.version
+  · rw [seqLocksOk_iff_mature _ _ hv] at h ⊢
+    intro i hi
+    unfold seqInputs at hi h
+    simp only [List.mem_map] at hi
+    obtain ⟨p, hp, rfl⟩ := hi
+    have hpx : p.1 ∈ t.ins := (List.of_mem_zip hp).1
+    apply inputMature_connect hm (hx p.1 hpx)
+    exact h _ (List.mem_map.2 ⟨p, hp, rfl⟩)
+  · exact seqLocksOk_v1 _ _ (by omega)
+
 theorem local_connect {c : Chain} {b : Block} {t : TxAbs} (hl : Local c t) (hm : ¬ b.mtp < c.mtp)
-    (hcb : ∀ x ∈ t.ins, x.txid ≠ b.cb.id) : Local (c.connect b) t := by
-  obtain ⟨l1, l2, l3, l4, l5, l7, l8⟩ := hl
-  refine ⟨l1, l2, l3, l4, l5, ?_, ?_⟩
+    (hcb : ∀ x ∈ t.ins, x.txid ≠ b.cb.id) (hns : ∀ x ∈ t.ins, ∀ T ∈ b.txs, x ∉ T.ins) :
+    Local (c.connect b) t := by
+  obtain ⟨l1, l2, l3, l4, l5, l6, l7, l8⟩ := hl
+  refine ⟨l1, l2, l3, l4, l5, seqLocksOk_connect (by omega) hns l6, ?_, ?_⟩
   · have : (c.connect b).height = c.height + 1 ∧ (c.connect b).mtp = b.mtp := by simp [Chain.connect]
     rw [this.1, this.2]
     exact isFinal_mono (by omega) (by omega) l7
@@ -250,14 +422,32 @@ theorem step_fl (pol : Policy) (st : State) (op : Op) (h : FL st.chain st.pool) 
     split
     · exact h
     · simp only
-      have h0 : FL (st.chain.connect b) (if b.mtp < st.chain.mtp then markStale st.pool else st.pool) := by
-        split
-        · exact fl_markStale _ _
-        · rename_i hm
-          intro e he hf
-          apply local_connect (h e he hf) hm
-          intro x hx
-          exact hc e.tx (mem_txs.2 ⟨e, he, rfl⟩) x hx
+      have h0 : FL (st.chain.connect b)
+          (staleSpenders b (if b.mtp < st.chain.mtp then markStale st.pool else st.pool)) := by
+        intro e he hf
+        unfold staleSpenders at he
+        simp only [List.mem_map] at he
+        obtain ⟨e0, he0, rfl⟩ := he
+        split at hf
+        · simp at hf
+        · rename_i hsp
+          have hns : ∀ x ∈ e0.tx.ins, ∀ T ∈ b.txs, x ∉ T.ins := by
+            intro x hx T hT hin
+            apply hsp
+            simp only [List.any_eq_true, decide_eq_true_eq]
+            exact ⟨x, hx, T, hT, hin⟩
+          split at he0
+          · exact absurd hf (by
+              unfold markStale at he0
+              simp only [List.mem_map] at he0
+              obtain ⟨e1, _, rfl⟩ := he0
+              simp)
+          · rename_i hm
+            split
+            · rename_i hsp'; exact absurd hsp' hsp
+            · apply local_connect (h e0 he0 hf) hm _ hns
+              intro x hx
+              exact hc e0.tx (mem_txs.2 ⟨e0, he0, rfl⟩) x hx
       apply fl_of_rel _ h0
       apply foldl_inv (fun s => EntRel (st.chain.connect b) s _) _ _ _ _ (EntRel.refl _ _)
       intro b' a hb; exact EntRel.trans (connectTx_ent pol _ prio b' a) hb
